@@ -84,9 +84,9 @@ func genSnap(r drv.Rand, n int) snapCase {
 		if r.Chance(1, 3) {
 			v = 1 + r.IntN(3)
 		}
-		sc.o = newProvider(i, stor, opts, v)
+		sc.o = newProviderCaps(i, stor, opts, v, r.IntN(8), r.Chance(1, 4))
 	case 3:
-		sc.o = newLegacy(i, stor)
+		sc.o = newLegacyCaps(i, stor, r.IntN(8))
 	case 4, 5:
 		var opts []roptd
 		for j := r.IntN(5); j > 0; j-- {
@@ -120,9 +120,9 @@ func genSnap(r drv.Rand, n int) snapCase {
 			for j := r.IntN(3); j > 0; j-- {
 				opts = append(opts, genPopt(r))
 			}
-			sc.setup = []opd{newProvider(i, stor, opts, 0)}
+			sc.setup = []opd{newProviderCaps(i, stor, opts, 0, r.IntN(8), r.Chance(1, 4))}
 		} else {
-			sc.setup = []opd{newLegacy(i, stor)}
+			sc.setup = []opd{newLegacyCaps(i, stor, r.IntN(8))}
 		}
 		sc.o = provReq(i, stor, r.IntN(10))
 	case 10:
@@ -220,16 +220,28 @@ func genGroup(r drv.Rand, g int, kind, tenant int) (group, string) {
 		kind = r.IntN(9)
 	}
 	switch kind {
-	case 0:
-		return group{[]opd{newProvider(i, stor, nil, 0)}, provReq(i, stor, 0)}, "prov-default"
-	case 1:
-		opts := []poptd{genPopt(r)}
-		for r.Bool() {
-			opts = append(opts, genPopt(r))
+	case 0, 1, 2: // providers / legacy servers in every optional-capability configuration, serving requests
+		caps := 7
+		var opts []poptd
+		name := "prov-default"
+		if kind > 0 {
+			caps = r.IntN(8)
+			name = fmt.Sprintf("prov-caps%d", caps)
 		}
-		return group{[]opd{newProvider(i, stor, opts, 0)}, provReq(i, stor, 0)}, "prov-custom"
-	case 2:
-		return group{[]opd{newLegacy(i, stor)}, provReq(i, stor, 0)}, "legacy"
+		var ops []opd
+		if kind == 2 {
+			ops = []opd{newLegacyCaps(i, stor, caps)}
+			name = fmt.Sprintf("legacy-caps%d", caps)
+		} else {
+			for kind == 1 && r.Bool() {
+				opts = append(opts, genPopt(r))
+			}
+			ops = []opd{newProviderCaps(i, stor, opts, 0, caps, false)}
+		}
+		for j := r.IntN(4); j > 0; j-- { // served requests: discovery first of all
+			ops = append(ops, provReq(i, stor, drv.Pick(r, []int{0, 0, 0, 1, 2, 3, 4, 5, 8})))
+		}
+		return group{ops, provReq(i, stor, drv.Pick(r, []int{0, 0, 4}))}, name
 	case 3:
 		ops := []opd{newRP(i, false, tn, append(copt, roptVerOpts))}
 		for _, k := range []int{4, 5, 3, 2, 8, 9, 1} {
@@ -304,7 +316,7 @@ func runOrder(w *emit.Writer, r drv.Rand) {
 	// but alternating issuers / keys, created and used in a random order (A, B, A ...)
 	twins := -1
 	if r.Chance(2, 5) {
-		twins = drv.Pick(r, []int{3, 5, 5, 6, 7})
+		twins = drv.Pick(r, []int{3, 5, 5, 6, 7, 1, 1})
 	}
 	for g := 1; g <= ng; g++ {
 		gr, name := genGroup(r, g, twins, map[bool]int{true: 1 + (g+1)%2, false: 0}[twins >= 0])
